@@ -455,3 +455,56 @@ def _set_state(interp, args, kwargs):
         raise Unsupported('np.random.set_state of a value that is not a saved state')
     interp.ctx.ghost['RNG'] = st.term
     return None
+
+
+# ---------------------------------------------------------------------------------------------
+# NaN-ignoring reductions (C19)
+# ---------------------------------------------------------------------------------------------
+
+def _nan_reduction(kind):
+    def f(interp, args, kwargs):
+        (x,) = args
+        if kwargs or not isinstance(x, SArr):
+            raise Unsupported(f'np.nan{kind} of this value')
+        return nan_reduce(interp.ctx, kind, x)
+    return f
+
+
+def nan_reduce(ctx, kind, x):
+    """spec-level NaN-ignoring reduction of a symbolic array (one ghost value per array and kind, with its defining facts);
+    used by the library model of np.nanmax / nanmin / nanmean and by contracts that mention these quantities"""
+    if True:
+        key = ('nanred', kind, id(x))
+        if key in ctx.ghost:
+            return ctx.ghost[key]
+        at = x.at
+        allnan = fresh_bool(f'allnan')
+        r = fresh_real(f'nan{kind}')
+        w = fresh_int('w')
+        # all-NaN input: the result is NaN (numpy warns); else: attained bound of the non-NaN elements
+        ctx.schemas.append(smt.Forall(0, x.n, lambda j: z3.Implies(allnan, to_real_parts(at(j))[0]), name='an'))
+        ctx.assume(z3.Implies(z3.Not(allnan), z3.And(w >= 0, w < x.n, z3.Not(to_real_parts(at(w))[0]), to_real_parts(at(w))[1] == r))
+                   if kind in ('max', 'min') else
+                   z3.Implies(z3.Not(allnan), z3.And(w >= 0, w < x.n, z3.Not(to_real_parts(at(w))[0]))))
+        if kind == 'max':
+            ctx.schemas.append(smt.Forall(0, x.n, lambda j: z3.Implies(z3.And(z3.Not(allnan), z3.Not(to_real_parts(at(j))[0])), to_real_parts(at(j))[1] <= r), name='mx'))
+        elif kind == 'min':
+            ctx.schemas.append(smt.Forall(0, x.n, lambda j: z3.Implies(z3.And(z3.Not(allnan), z3.Not(to_real_parts(at(j))[0])), to_real_parts(at(j))[1] >= r), name='mn'))
+        else:
+            # mean of the non-NaN elements: somewhere between their min and max (all the contract says)
+            lo = nan_reduce(ctx, 'min', x)
+            hi = nan_reduce(ctx, 'max', x)
+            ctx.assume(z3.Implies(z3.Not(allnan), z3.And(lo.v <= r, r <= hi.v)))
+        ctx.hint(w)
+        out = SFloat(r, allnan, 'npfloat')
+        ctx.ghost[key] = out
+        ctx.ghost.setdefault('nanred_list', []).append((kind, x, out, w))
+        return out
+
+
+LIB['numpy.nanmax'] = _nan_reduction('max')
+LIB_DOC['numpy.nanmax'] = 'np.nanmax(a): the largest non-NaN element (attained); NaN if all elements are NaN'
+LIB['numpy.nanmin'] = _nan_reduction('min')
+LIB_DOC['numpy.nanmin'] = 'np.nanmin(a): the smallest non-NaN element (attained); NaN if all elements are NaN'
+LIB['numpy.nanmean'] = _nan_reduction('mean')
+LIB_DOC['numpy.nanmean'] = 'np.nanmean(a): a value between nanmin(a) and nanmax(a); NaN if all elements are NaN'
